@@ -449,6 +449,48 @@ def pair_case(u, row):
     }
 
 
+def history_case(u, row, word, warm):
+    """deterministic history behaviour built from a ShapeSysExport row: both operands are
+    constructed, one binary query warms whatever the implementation caches, both operands
+    are then transformed in place by the same generators (so they stay in one frame) and the
+    containment / equality / union questions are asked again - expected answers are the
+    row's, whatever happened before"""
+    full = u.full
+    W_REC = dict(E_REC, reg=full)
+    ra, rb = row["a"], row["b"]
+
+    def rec(reg, fr=(), splits=(), segk=True):
+        return {"reg": reg, "frame": tuple(fr), "splits": frozenset(tuple(p) for p in splits), "segk": segk, "warm": False}
+
+    def st(fa, fb, obs, third=None, sa=(), sb=(), ka=True, kb=True):
+        return {"heap": (E_REC, W_REC, rec(ra, fa, sa, ka), rec(rb, fb, sb, kb), third or FREE), "regs": (3, 4, 5 if third else 0), "obs": obs}
+
+    steps = [("SInit", (), {"heap": (E_REC, W_REC, FREE, FREE, FREE), "regs": (0, 0, 0), "obs": {"call": "init"}}),
+             ("MakeRegion", (1, ra), {"heap": (E_REC, W_REC, rec(ra), FREE, FREE), "regs": (3, 0, 0), "obs": {"call": "mkreg"}}),
+             ("MakeRegion", (2, rb), st((), (), {"call": "mkreg"}))]
+    wa, wb = {"aa": (1, 1), "ba": (1, 2), "ab": (2, 1), "bb": (2, 2)}[warm]
+    ans = {"aa": True, "bb": True, "ba": row["sub_ba"], "ab": row["sub_ab"]}[warm]
+    steps.append(("QSubset", (wa, wb), st((), (), {"call": "in", "ans": ans})))
+    fa = fb = ()
+    for g in word:
+        fa = fa + (g,)
+        steps.append(("Transform", (1, 1, g), st(fa, fb, {"call": "transform"})))
+    for g in word:
+        fb = fb + (g,)
+        steps.append(("Transform", (2, 2, g), st(fa, fb, {"call": "transform"})))
+    steps.append(("QSubset", (1, 2), st(fa, fb, {"call": "in", "ans": row["sub_ba"]})))
+    steps.append(("QSubset", (2, 1), st(fa, fb, {"call": "in", "ans": row["sub_ab"]})))
+    steps.append(("QEq", (1, 2), st(fa, fb, {"call": "eq", "ans": row["eq"]})))
+    if row["cls"] == "T" and row["op"] in ("or", "and"):
+        rr = row["res"]
+        third = rec(rr, fa, row["splits"], row["segk"]) if rr not in (0, full) else None
+        s_last = {"heap": (E_REC, W_REC, rec(ra, fa, row["sa"], row["ka"]), rec(rb, fb, row["sb"], row["kb"]), third or FREE),
+                  "regs": (3, 4, 1 if rr == 0 else 2 if rr == full else 5), "obs": {"call": "bin", "op": row["op"], "cls": row["cls"], "res": rr}}
+        steps.append(("Bin", (row["op"], 3, 1, 2), s_last))
+    return {"label": "hist-%s-%s" % ("".join(word), warm), "universe": u.name, "steps": steps,
+            "row": {"op": "h%s%s%s" % (row["op"], "".join(word), warm), "a": ra, "b": rb, "res": row["res"], "cls": row["cls"]}}
+
+
 def run_case(job):
     """worker entry: job = (universe name, realisation name, case, options)"""
     uname, rname, case, opts = job
